@@ -289,6 +289,15 @@ func runC15(c *core.Ctx) {
 	perSeed := c.Pick(2500, 40000)
 	cn := 0
 	for si, seed := range seeds {
+		if c.Shard == si%c.NShards && !e.stopped {
+			id := fmt.Sprintf("valid-seed/%d", si)
+			if c.Want(id) {
+				c.Begin(id)
+				e.loadBoth(id, seed, map[string]any{"file": string(seed)})
+				c.End(id)
+				c.Eval(2)
+			}
+		}
 		r := c.Rand("c15mut", si)
 		for vi, v := range hostileVariants(r, seed, perSeed) {
 			cn++
